@@ -17,6 +17,8 @@ Rev(alg) == CASE alg = "rc4_40"     -> 2
               [] alg = "aes_128"    -> 4
               [] alg = "aes_256"    -> 5
               [] alg = "aes_256_r6" -> 6
+              [] alg = "rc4_128_r3" -> 3   \* not offered by pdfcpu's encrypt command; C26 obtains such documents by
+                                           \* rewriting the encryption dictionary of an rc4_128 document (same keys)
 
 (* Revisions 2-4 derive the owner key from the owner password or, when that is    *)
 (* empty, from the user password (ISO 32000-1 algorithm 3 step a).                *)
@@ -61,8 +63,10 @@ Unclassified == <<"MULTIFILLFORMFIELDS", "ENCRYPT", "DECRYPT", "CHANGEUPW", "CHA
 Classified == {NeedsTable[i][1] : i \in 1..Len(NeedsTable)}
 AllModes   == Classified \cup {Unclassified[i] : i \in 1..Len(Unclassified)}
 
-NeedsExtract(cmd) == \E i \in 1..Len(NeedsTable) : NeedsTable[i][1] = cmd /\ NeedsTable[i][2] = 1
-NeedsModify(cmd)  == \E i \in 1..Len(NeedsTable) : NeedsTable[i][1] = cmd /\ NeedsTable[i][3] = 1
+ExtractModes == {NeedsTable[i][1] : i \in {j \in 1..Len(NeedsTable) : NeedsTable[j][2] = 1}}
+ModifyModes  == {NeedsTable[i][1] : i \in {j \in 1..Len(NeedsTable) : NeedsTable[j][3] = 1}}
+NeedsExtract(cmd) == cmd \in ExtractModes
+NeedsModify(cmd)  == cmd \in ModifyModes
 
 (* The two bit layouts: revision 2 uses bit 5 (extract) and bit 4 (modify),       *)
 (* revisions >= 3 use bit 10 (extract) and bit 11 (assemble/modify).              *)
@@ -71,8 +75,9 @@ ModifyBit(R)  == IF R >= 3 THEN 11 ELSE 4
 ExtractDenied(P, R) == ~Bit(P, ExtractBit(R))
 ModifyDenied(P, R)  == ~Bit(P, ModifyBit(R))
 
-Denied(cmd, P, R) == \/ NeedsExtract(cmd) /\ ExtractDenied(P, R)
-                     \/ NeedsModify(cmd)  /\ ModifyDenied(P, R)
+(* a command of class (needs extract, needs modify) *)
+DeniedC(nx, nm, P, R) == (nx /\ ExtractDenied(P, R)) \/ (nm /\ ModifyDenied(P, R))
+Denied(cmd, P, R) == DeniedC(NeedsExtract(cmd), NeedsModify(cmd), P, R)
 
 --------------------------------------------------------------------------
 (* Password checks (C25).                                                        *)
@@ -93,13 +98,24 @@ OpenOutcome(d, cmd, u, o) ==
                                          ELSE IF Denied(cmd, d.perm, Rev(d.alg)) THEN "ErrPermissionDenied" ELSE "ok"
          [] OTHER                     -> "ErrWrongPassword"
 
-(* A step is [op, alg, u, o, n, p]: operation, algorithm (Encrypt), supplied user and owner password, *)
-(* new password (ChangeUPW, ChangeOPW), permissions (Encrypt, SetPerms).                                          *)
-Plain == [enc |-> FALSE, alg |-> "rc4_40", upw |-> "", opw |-> "", perm |-> 0]
+(* Commands that refuse encrypted input altogether (before any password check). *)
+EncryptedRefused == {"BOOKLET", "ENCRYPT", "MERGEAPPEND", "MERGECREATE", "MERGECREATEZIP", "ADDSIGNATURE"}
+ChangeModes == {"CHANGEUPW", "CHANGEOPW", "SETPERMISSIONS"}
 
 (* Change commands insist on the owner password and then on the user password as well. *)
 ChangeGuard(d, u, o) == IF ~OwnerOK(d, u, o) THEN "ErrOwnerPasswordRequired"
                         ELSE IF ~UserOK(d, u) THEN "ErrWrongPassword" ELSE "ok"
+
+(* Reading the encrypted document d for an arbitrary command mode. *)
+ReadOutcome(d, mode, u, o) ==
+  IF ~d.enc THEN "ok"
+  ELSE IF mode \in EncryptedRefused THEN "ErrEncrypted"
+  ELSE IF mode \in ChangeModes THEN ChangeGuard(d, u, o)
+  ELSE OpenOutcome(d, mode, u, o)
+
+(* A step is [op, alg, u, o, n, p]: operation, algorithm (Encrypt), supplied user and owner password, *)
+(* new password (ChangeUPW, ChangeOPW), permissions (Encrypt, SetPerms).                                          *)
+Plain == [enc |-> FALSE, alg |-> "rc4_40", upw |-> "", opw |-> "", perm |-> 0]
 
 Outcome(d, s) ==
   CASE s.op = "Encrypt"   -> IF d.enc THEN "ErrEncrypted" ELSE IF s.o = "" THEN "ErrOwnerPasswordRequired" ELSE "ok"
